@@ -229,7 +229,7 @@ class Builder:
         alts = ['col', 'num', 'str', 'ph', 'null', 'float']
         if depth < 2:
             alts += ['func', 'binop', 'paren', 'case', 'cast', 'array', 'neg', 'concat', 'dollar',
-                     'typed', 'subq', 'var', 'hashname', 'kwname']
+                     'typed', 'subq', 'var', 'hashname', 'kwname', 'tz']
         how = self.pick(k, alts)
         if how == 'col':
             self.colref(k + '.c', 'c', gap, ws)
@@ -288,6 +288,17 @@ class Builder:
             self.emit('#tmp', 'name', gap, ws)
         elif how == 'kwname':
             self.emit(self.pick(k + '.w', ['data', 'level', 'map', 'zone']), 'name', gap, ws)
+        elif how == 'tz':
+            # the dedicated rule takes AT TIME ZONE and its literal into one Keyword.TZCast token
+            # (emitted as one unit: a comment between ZONE and the literal would make it four other tokens)
+            self.colref(k + '.c', 'c', gap, ws)
+            i = len(self.toks)
+            lit = self.ctx.choose('lit', f'tz{i}', ["'UTC'", "'Etc/GMT  0\t1'", "'it''s a \n zone'"])
+            how = self.ctx.choose('case', f'case{i}', CASES)
+            if self.wstyle in ('upper', 'upper-nl'):
+                how = 'upper'
+            inner = self.ctx.choose('wsk', f'wsk{i}.0', WS_INNER)
+            self.emit(recase('at', how) + inner + recase('time', how) + ' ' + recase('zone', how) + ' ' + lit, 'kw')
 
     def cond(self, k, depth=0):
         alts = ['cmp', 'isnull', 'like', 'between', 'inlist']
@@ -620,6 +631,9 @@ class Builder:
 
     def stmt(self, k, default=0):
         how = self.pick(k, self.STMTS, default)
+        pre = self.pick(k + '.prefix', [None, 'explain', 'explain analyze'])
+        if pre:
+            self.kw(pre)
         if how == 'select':
             self.select(k + '.sel', 0)
         else:
@@ -644,6 +658,7 @@ SEEDS = [
                                                    's.sel.limit': True, 's.sel.dir': 'desc', 's.sel.items.n': 2,
                                                    's.sel.items.1.e': 'func'}),
     ('select-order-two-keys', 'select', {'s.sel.order': True, 's.sel.dir': 'desc', 's.sel.o2': True, 's.sel.o2dir': 'asc'}),
+    ('select-at-time-zone', 'select', {'s.sel.items.n': 2, 's.sel.items.0.e': 'tz', 's.sel.items.0.alias': 'as', 's.sel.where': True}),
     ('select-subquery-from', 'select', {'s.sel.t0.kind': 'subq', 's.sel.where': True}),
     ('select-in-subquery', 'select', {'s.sel.where': True, 's.sel.w': 'insel'}),
     ('select-in-subquery-where', 'select', {'s.sel.where': True, 's.sel.w': 'insel', 's.sel.w.s.where': True}),
@@ -686,6 +701,8 @@ SEEDS = [
     ('create-table-as-select', 'create_table', {'s.create_table.ctas': True, 's.create_table.s.items.0.e': 'func'}),
     ('create-view', 'create_view', {}),
     ('create-or-replace-view', 'create_view', {'s.create_view.cr': 'create or replace', 's.create_view.s.where': True}),
+    ('explain-create-or-replace-view', 'create_view', {'s.prefix': 'explain', 's.create_view.cr': 'create or replace'}),
+    ('explain-analyze-select', 'select', {'s.prefix': 'explain analyze', 's.sel.where': True}),
     ('drop', 'simple', {}),
     ('alter', 'simple', {'s.simple': 'alter'}),
     ('truncate', 'simple', {'s.simple': 'truncate'}),
